@@ -110,14 +110,17 @@ class FromFileImpl:
         self.base.update({"auth": {"type": "none"}}, "verif", privileged=True)
         self.n = 0
 
-    def load(self, text):
+    def load(self, text, rule_debug=False):
+        """rule_debug = [logging] rights_rule_doesnt_match_on_debug, the only option besides the file name that
+        from_file reads: it must only change what is logged"""
         from radicale.rights import from_file
         self.n += 1
         path = os.path.join(self.scratch, "rights-%d" % self.n)
         with open(path, "w", encoding="utf-8", newline="") as f:
             f.write(text)
         conf = self.base.copy()
-        conf.update({"rights": {"type": "from_file", "file": path}}, "verif", privileged=True)
+        conf.update({"rights": {"type": "from_file", "file": path},
+                     "logging": {"rights_rule_doesnt_match_on_debug": bool(rule_debug)}}, "verif", privileged=True)
         try:
             return from_file.Rights(conf)
         finally:
@@ -795,7 +798,36 @@ def gen_ff_file(rng, hostile=False, optional_groups=False):
             elif k < 0.52:
                 del sec["user"]
         rules.append(sec)
-    return rules
+    # several sections matching the same (user, path): a specific rule followed by a general one, duplicated patterns
+    # with other permissions -- "first match wins" is only observable then
+    if rng.random() < 0.35:
+        src = rng.choice(rules)
+        dup = dict(src)
+        dup["permissions"] = rng.choice([p for p in PERMS if p != src.get("permissions")])
+        rules.insert(rng.randint(rules.index(src) + 1, len(rules)), dup)
+    if rng.random() < 0.35:
+        rules.append({"user": rng.choice([".*", ".+"]), "collection": rng.choice([".*", "[^/]*(/.*)?"]), "permissions": rng.choice(PERMS)})
+    return rules[:7]
+
+
+def rights_config_options():
+    """(section, option) pairs read through `configuration.get(...)` anywhere in the rights package (AST scan)."""
+    import ast
+    found = set()
+    d = os.path.join(core.REPO, "radicale", "rights")
+    for name in sorted(os.listdir(d)):
+        if not name.endswith(".py"):
+            continue
+        with open(os.path.join(d, name)) as f:
+            tree = ast.parse(f.read())
+        for node in ast.walk(tree):
+            if (isinstance(node, ast.Call) and isinstance(node.func, ast.Attribute) and node.func.attr in ("get", "get_raw")
+                    and "configuration" in ast.unparse(node.func.value)):
+                if len(node.args) >= 2 and all(isinstance(a, ast.Constant) for a in node.args[:2]):
+                    found.add((node.args[0].value, node.args[1].value))
+                else:
+                    found.add(("?", ast.unparse(node)))
+    return found
 
 
 def gen_ff_queries(rng, rules, k):
